@@ -29,6 +29,7 @@ Unit(
             note="registered object/match processor: returns anything, raises anything",
         )
     },
+    modifies=["*"],  # the processor is arbitrary user code
     ensures=[
         ("processor-result-unchanged", "implies(n_calls('processor') == 1, result == ev(-1).result)"),
         ("default-is-identity", "implies(n_calls('processor') == 0, result == value)"),
@@ -143,6 +144,7 @@ Unit(
     captured={"obj_processor": "callable"},
     requires=["implies(is_ref(obj), depth(obj) >= 0)"],
     calls={"obj_processor": Ext("obj_processor", note="the wrapped object processor")},
+    modifies=["*"],  # the wrapped processor is arbitrary user code
     ensures=[("value-unchanged", "result == ev(0).result")],
     raises={
         "Exception": [
